@@ -110,7 +110,7 @@ func (b *binder) buildSeqSpend(sc *seqScen, scripts map[string][]*Tok) (*spend, 
 	if !ok {
 		return nil, nil, fmt.Errorf("no tx context A")
 	}
-	sp := &spend{amount: 100000, ctx: ctx}
+	sp := &spend{amount: 100000, ctx: ctx, realFunding: true}
 	cc := &Conc{w: b.w, scripts: map[string][]byte{}, ctrls: map[string][]byte{}}
 	sg := &signer{b: b, cc: cc, sp: sp}
 	cc.sigFn = sg.placeholder
@@ -339,7 +339,7 @@ func (b *binder) runSeq() error {
 	dump := filepath.Join(c.Scratch, "seq")
 	t0 := time.Now()
 	res, err := tlc.Run(tlc.Opts{SpecDir: c.SpecDir("script"), Module: "MCSeq", Config: "MCSeq.cfg", Workers: 2,
-		Timeout: 15 * time.Minute, Scratch: c.Scratch, HeapGB: 6, Coverage: c.Thorough, Extra: []string{"-dump", dump}})
+		Timeout: 15 * time.Minute, Scratch: c.Scratch, HeapGB: 6, Extra: []string{"-dump", dump}})
 	if err != nil {
 		return fmt.Errorf("MCSeq: %w", err)
 	}
@@ -350,11 +350,6 @@ func (b *binder) runSeq() error {
 	if err := b.ensureTables(res.Output); err != nil {
 		return err
 	}
-	if c.Thorough {
-		if err := coverageAudit("MCSeq", res, []string{"Init", "Pick", "Evaluate"}); err != nil {
-			return err
-		}
-	}
 	scripts, err := b.parseScripts(res.Output)
 	if err != nil {
 		return err
@@ -363,12 +358,15 @@ func (b *binder) runSeq() error {
 	scens := map[string]*seqScen{}
 	byScen := map[string][]*seqCase{}
 	var order []string
+	var levels [2]int
 	n, err := readDump(dump+".dump", func(st tla.State) error {
 		sv := st["scen"]
 		name := sv.F("name").Str()
 		if name == "" || st["fs"].Str() == "" {
+			levels[0]++
 			return nil // root / scenario chosen, not yet evaluated
 		}
+		levels[1]++
 		sc := scens[name]
 		if sc == nil {
 			sc = &seqScen{name: name, sig: b.in.toks_(sv.F("sig")), pk: b.in.toks_(sv.F("pk")), wit: b.in.elems_(sv.F("wit")), signs: sv.F("signs").Str()}
@@ -388,6 +386,10 @@ func (b *binder) runSeq() error {
 	}
 	if int64(n) != res.Distinct {
 		return fmt.Errorf("MCSeq: dump has %d states, TLC reports %d", n, res.Distinct)
+	}
+	// vacuity: every action produced its states (root, one per scenario, one per scenario and flag set)
+	if levels[0] != 1+len(order) || levels[1] != len(order)*len(b.tables.Flags) || len(order) == 0 {
+		return fmt.Errorf("MCSeq: unexpected shape of the state space: %d scenarios, %d unevaluated and %d evaluated states", len(order), levels[0], levels[1])
 	}
 	var firstErr error
 	var emu sync.Mutex
